@@ -404,6 +404,13 @@ static long vf_src_read(struct vf_src *s, char *buf, size_t max)
 	int idx = s->nreads++;
 	c->requested++;
 	if (s->fail_at >= 0 && idx == s->fail_at) {
+		/* (a comment line: the monitor must be able to tell a fault the scanner swallowed
+		 * from one that was never reached) */
+		vf_puts(c, "# readfault ");
+		vf_putl(c, (long) idx);
+		vf_puts(c, " ");
+		vf_putl(c, (long) s->fail_errno);
+		vf_puts(c, "\n");
 		errno = s->fail_errno;
 		return -1;
 	}
